@@ -1,7 +1,7 @@
 import ApolloModel.Proofs.ParserWhole
 import ApolloModel.Proofs.ParserType10
 import ApolloModel.Proofs.ParserSel9
-import ApolloModel.Proofs.ParserComplete16
+import ApolloModel.Proofs.ParserComplete29
 /-
 C07 — Standalone type and field-set parsing consume the whole input.
 Parser model of C01 with the repaired entry points (`expect_end_of_input`).
@@ -229,6 +229,60 @@ example : (parse .selectionSet none 1 "a(x:[1])".toList).errors ≠ [] := by dec
 example : (parse .selectionSet none 500 "{ a , : b }".toList).errors = [] := by decide +kernel
 example : (parse .selectionSet none 500 "{ ...on T { c } ... on T { c } ... @d { c } ... { c } }".toList).errors = [] := by decide +kernel
 example : (parse .selectionSet none 500 "{ true(x: true) @false }".toList).errors = [] := by decide +kernel
+
+/-! ### the accepted language of `parse_selection_set`, bracketed (growth 7) -/
+
+/-- **Both inclusions** for the field-set entry point, for a source without lexer error (no token limit):
+    `{ {ss} at the start | ss | fitSels }` ⊆ accepted ⊆ `IsFieldSet`.  The right inclusion (soundness) is strict:
+    `IsFieldSet` says nothing about spread names, empty inline fragments, the values or the budget — `{ ...on }` and,
+    with recursion limit 1, `{a{b}}` are `IsFieldSet` sentences that are rejected (witnesses above).  For an `iff` the
+    soundness lemmas of Proofs/ParserSel1–6 must export `fitSels`. -/
+theorem fieldset_accept_sandwich (rl : Nat) (src : Parse.Str) (ts : List Tok) (e : Tok)
+    (hclean : LexClean src) (hsig : sig (srcToks src) = ts ++ [e]) (he : e.kind = .eof) :
+    ((∃ ss : Ast.Sels, ss ≠ Ast.Sels.nil ∧ 1 ≤ rl ∧ fitSels ss (rl - 1) ∧
+        ((TokIs ts (.p .lCurly :: Ast.tSels ss ++ [.p .rCurly]) ∧
+            (∀ hd tl, srcToks src = hd :: tl → isIgnoredKind hd.kind = false)) ∨ TokIs ts (Ast.tSels ss))) →
+      (parse .selectionSet none rl src).errors = []) ∧
+    ((parse .selectionSet none rl src).errors = [] → ∃ x, TokIs ts x ∧ IsFieldSet x) := by
+  constructor
+  · rintro ⟨ss, hne, hb, hfit, hx⟩
+    exact fieldset_accept_complete rl src ss ts e hclean hsig he hne hb hfit hx
+  · intro herr
+    obtain ⟨_, x, ts', e', h1, _, h3, h4⟩ := fieldset_accept_sound rl src herr
+    have : ts' = ts := by
+      have h := hsig.symm.trans h1
+      have hl := congrArg List.length h
+      simp at hl
+      exact ((List.append_inj h hl).1).symm
+    subst this
+    exact ⟨x, h3, h4⟩
+
+/-- **`type_accept_sandwich`**: for the `type` entry point the two theorems differ only by the guards of completeness
+    (list nesting ≤ recursion limit, no ignored token in front): accepted ⇒ one type; one type within the guards ⇒ accepted -/
+theorem type_accept_sandwich (rl : Nat) (src : Parse.Str) (hclean : LexClean src) :
+    ((∃ (t : Ast.Ty) (ts : List Tok) (e : Tok), sig (srcToks src) = ts ++ [e] ∧ e.kind = .eof ∧
+        ts.map astOf = (Ast.tTy t).map some ∧ Parse.tyDepth t ≤ rl ∧
+        (∀ hd tl, srcToks src = hd :: tl → isIgnoredKind hd.kind = false)) → (parse .type none rl src).errors = []) ∧
+    ((parse .type none rl src).errors = [] → ∃ (t : Ast.Ty) (ts : List Tok) (e : Tok),
+        sig (srcToks src) = ts ++ [e] ∧ e.kind = .eof ∧ ts.map astOf = (Ast.tTy t).map some) := by
+  constructor
+  · rintro ⟨t, ts, e, h1, h2, h3, h4, h5⟩
+    exact type_accept_complete rl src t ts e hclean h1 h2 h3 h4 h5
+  · intro herr
+    exact (type_accept_sound rl src herr).2
+
+/-- **`type_accept_iff`**: the exact accepted language of `Parser::parse_type` (no token limit, recursion limit `rl`).
+    Zero errors ⇔ the source has no lexer error, its significant tokens are the tokens `tTy t` of ONE type reference
+    followed by EOF, the list nesting of `t` is at most `rl`, and the input does not start with an ignored token.
+    (⇒) soundness gives the type; the nesting bound comes from C04 (`rec_limit_iff_depth`: no limit error ⇒
+    `typeDepth src ≤ rl`, and `typeDepth` of these tokens is `tyDepth t`); the head condition because `ty.rs` peeks
+    before it skips ignored tokens (`Parse.tyParse_ignored_head`).  (⇐) is `type_accept_complete`. -/
+theorem type_accept_iff (rl : Nat) (src : Parse.Str) :
+    (parse .type none rl src).errors = [] ↔
+      (LexClean src ∧ ∃ (t : Ast.Ty) (ts : List Tok) (e : Tok), sig (srcToks src) = ts ++ [e] ∧ e.kind = .eof ∧
+        ts.map astOf = (Ast.tTy t).map some ∧ Parse.tyDepth t ≤ rl ∧
+        (∀ hd tl, srcToks src = hd :: tl → isIgnoredKind hd.kind = false)) :=
+  Parse.parseType_iff rl src
 
 end Executable
 
